@@ -1,5 +1,6 @@
 """C02 — packrat memoization never changes a parse outcome."""
 from tools import vlib
+from tools.harness import history
 from tools.harness import gen, corr, pcommon, shrink as shr, build, dump, observe
 
 PROP = "C02"
@@ -112,6 +113,8 @@ def run_alias(ctx):
 
 
 def correspond(ctx):
+    # entry points are independent of what the same grammar object was asked before (tools/harness/history.py)
+    history.run(ctx, 'C02', ["none", "packrat128", "packratU", "packrat2"], 250 if not ctx.thorough else 2500, mode_switches=True, seed_salt=2)
     corr.ensure_driver()
     rng = ctx.rng
     n = 600 if not ctx.thorough else 4000
@@ -177,6 +180,7 @@ def correspond(ctx):
 
 
 def search(ctx, reasons):
+    history.run(ctx, 'C02', ["none", "packrat128", "packratU", "packrat2"], 400 if not ctx.thorough else 4000, mode_switches=True, seed_salt=102)
     # widen: more seeds, only the implementation oracle (mode off vs packrat 128 / 1)
     import random
     for seed in range(1, 6 if not ctx.thorough else 40):
@@ -212,6 +216,8 @@ def _tuplify(x):
 
 def replay(ctx, obj):
     r = obj["replay"]
+    if r.get("kind") == "history":
+        return history.replay(r)
     if r.get("kind") == "outcome":
         g, env = _tuplify(r["grammar"]), {int(k): _tuplify(v) for k, v in (r.get("env") or {}).items()}
         mode, entry = _tuplify(r["mode"]), _tuplify(r["entry"])
